@@ -111,5 +111,12 @@ def register(claim, na):
           "args in that order on both paths; wrappers per SpawnOptions by pattern semantics; the builder passed to the hook is the one spawned at all "
           "spawn sites; the CLI splits/joins the words as documented. Byte-for-byte hand-over is tokio/OS behaviour and not decided.",
           "trusts tokio::process::Command::{new,arg,args}, process-wrap wrappers, std OsString handling", "DESIGN.md section 5 C18")
-    for p in ["C05", "C11", "C12", "C14"]:
+    claim("C11", "other", "THIR path enumeration of GlobsetFilterer::check_event and of its per-path closure (decision order and verdict per outcome), wiring rules on GlobsetFilterer::new, pattern-semantics table for the CLI's fs-event kinds",
+          "Decides the decision structure: whitelist first (equality scan) => pass; ignore files => reject; no paths => pass; otherwise `any` over paths "
+          "where ignore patterns are consulted first and reject, filter patterns precede extensions, directories are offered to filter patterns before "
+          "the extension rule rejects them, `true` only after a filter/extension match, fall-through !filtered; arguments are wired to the same-named "
+          "fields; CLI stage order and kind table. What a glob matches is not decided.",
+          "trusts the ignore crate's Gitignore::matched; the monotonicity clause is decided structurally (ignore patterns can only yield false)",
+          "DESIGN.md section 5 C11")
+    for p in ["C05", "C12", "C14"]:
         na(p, PENDING)
